@@ -263,15 +263,16 @@ impl Username {
     ///
     /// Determines the variant and encodes non ascii usernames with utf8 percentage encoding.
     pub fn new(username: BytesStr) -> Self {
-        let maybe_encoded = utf8_percent_encode(&username, CHARSET).into();
+        let maybe_encoded: Cow<'_, str> = utf8_percent_encode(&username, CHARSET).into();
 
-        match maybe_encoded {
-            Cow::Borrowed(_) => Username::Username(username),
-            Cow::Owned(encoded) => {
-                let username_encoded = format!("UTF-8''{}", encoded).into();
+        // `Cow::Borrowed` does not imply that nothing had to be encoded
+        // (a single encoded byte is returned as borrowed `%XX`), so compare
+        if maybe_encoded == username.as_str() {
+            Username::Username(username)
+        } else {
+            let username_encoded = format!("UTF-8''{}", maybe_encoded).into();
 
-                Username::UsernameNonASCII(username_encoded)
-            }
+            Username::UsernameNonASCII(username_encoded)
         }
     }
 }
